@@ -79,7 +79,7 @@ def _task(kind, prop, tier, arg=None):
         return zops.verify(prop)
     if kind == 'V':
         from .. import zqrv
-        return zqrv.run('bond_ops.qr')
+        return zqrv.run('bond_ops.qr') if arg != 'svd' else zqrv.run_svd('bond_ops.split_matrix_svd')
     if kind == 'Q':
         from .. import zqr
         which, kind = arg
@@ -114,6 +114,8 @@ def deductive_all(prop, tier='quick'):
         tasks.append(('O', prop, tier, None))
     if prop == 'C11':
         tasks.insert(0, ('V', prop, tier, None))
+    if prop == 'C12':
+        tasks.insert(0, ('V', prop, tier, 'svd'))
     if len(tasks) <= 4 and prop not in ('C12', 'C13'):
         out = []
         for t in tasks:
